@@ -1,11 +1,11 @@
 #!/bin/bash
-# Dev tool: confirm and evaluate the round-2 mutants of one property. usage: process_round2.sh <ID>
+# Dev tool: confirm and evaluate the round-2 mutants of one property. usage: OFFSET=4 process_round.sh <ID>
 id=$1
 cd /verif
 for n in 1 2; do
   src=/tmp/wt/$id/mutants/$n
   [ -d $src ] || { echo "$id-$n: no such dir"; continue; }
-  k=$((n+2))
+  k=$((n+${OFFSET:-2}))
   eval $(python3 - "$src/meta.json" <<'PY'
 import json,sys,shlex
 m=json.load(open(sys.argv[1]))
